@@ -327,3 +327,11 @@ Theorem ex_short_round_trip :
       end)) = true.
 Proof. exact ex_short_round_trip_lemma. Qed.
 Print Assumptions ex_short_round_trip.
+
+(** ** round 6c: convert_to_AUTOUGH2 applied to its own result rebuilds the short output from the emptied history lists:
+    block / connection lists and frequency are gone (why the [type] setter is a no-op when the type is unchanged) *)
+Theorem to_autough2_twice : forall mp mp' sim eos sim' eos' d d' d'',
+  convert_to_AUTOUGH2 mp sim eos d = Ok d' -> convert_to_AUTOUGH2 mp' sim' eos' d' = Ok d'' ->
+  so_block (short_output d'') = None /\ so_conn (short_output d'') = None /\ so_freq (short_output d'') = None.
+Proof. exact to_autough2_twice_lemma. Qed.
+Print Assumptions to_autough2_twice.
